@@ -19,7 +19,9 @@ What the code does (anchors):
   `time_to_str(time)`; `Feature` has no such methods (AttributeError) (`forceCreated`, `forceUpdated`);
 * every property setter / mutator: validation (may refuse, nothing written), the write, then —
   on the paths of its body that run the idiom `if self.file.auto_update_timestamps:
-  self.force_updated_at()` — the update of that object's `updated_at`.  Which paths a member has
+  self.force_updated_at()` — the update of that object's `updated_at`; a path that runs
+  `self.force_updated_at()` outside that test (touch state `always`) writes it whatever the switch
+  says.  Which paths a member has
   (how each ends: `return` or an exception; whether the idiom has run before that exit, and on which
   object) is **not** written here: it is read from `Generated/Setters.lean` (`Member.outcomes`, a
   path-sensitive analysis of the source), with Python's method resolution order.  A call is modelled
@@ -215,7 +217,19 @@ def step (s : State) : Op → State × Res
                 match timeToStr s.clock with
                 | .error er => (s, .err er)
                 | .ok v => ({ s with ents := setUpdated s.ents e v }, res)
-            else (s, res)
+              | .always =>
+                match timeToStr s.clock with
+                | .error er => (s, .err er)
+                | .ok v => ({ s with ents := setUpdated s.ents e v }, res)
+            else
+              match o.touch with
+              | .always =>
+                -- `self.force_updated_at()` outside the test of the switch: written although the switch
+                -- is off (no member of the source has such a path: `Nix.C19.C19_no_unguarded_stamp`)
+                match timeToStr s.clock with
+                | .error er => (s, .err er)
+                | .ok v => ({ s with ents := setUpdated s.ents e v }, res)
+              | _ => (s, res)
   | .forceCreated e t =>
     match aliveAt s e with
     | none => (s, .bad)
